@@ -43,6 +43,9 @@ fn router_addr() -> SocketAddr {
 fn fresh_addr(k: usize) -> SocketAddr {
     format!("10.77.{}.{}:{}", k / 200, 1 + k % 200, 7700 + k % 100).parse().unwrap()
 }
+fn grabber_addr() -> SocketAddr {
+    "10.77.77.77:7777".parse().unwrap()
+}
 fn named_addr(k: usize) -> SocketAddr {
     format!("10.88.0.{}:{}", 1 + k, 8800 + k).parse().unwrap()
 }
@@ -95,6 +98,15 @@ pub fn build(cfg: &Cfg) -> (Scenario, Vec<Box<dyn Peer>>) {
         r.values = vec![];
         peers.push(Box::new(r));
     }
+    // a party that never gets asked anything: it only queries (and announces with the token it gets)
+    peers.push(Box::new(crate::props::single::Client {
+        addr: grabber_addr(),
+        node: n_addr(),
+        id: [0x6b; 20],
+        board: Arc::new(std::sync::Mutex::new(crate::props::single::TokenBoard::default())),
+        counter: 0,
+        grab_and_announce: true,
+    }));
     sc.nodes.push(NodeSpec {
         addr: n_addr(),
         id: Some(InfoHash::from(n_id())),
@@ -116,10 +128,41 @@ pub fn build(cfg: &Cfg) -> (Scenario, Vec<Box<dyn Peer>>) {
     (sc, peers)
 }
 
-pub const MENU: usize = 4 + 2 * 6;
+pub const MENU: usize = 4 + 2 * 6 + 5;
 
 fn injector() -> sim::Injector {
     Arc::new(|log: &[Datagram], _now: u64, _at: &Datagram, m: usize| {
+        if m >= 16 {
+            // wrong-length ids derived from an id the node really has outstanding, and a party that
+            // only ever sends queries (get_peers, then announce_peer with the token it was handed)
+            let n = n_addr();
+            let last_q = log.iter().rev().filter(|d| d.src == n).map(|d| (d, krpc::parse(&d.bytes))).find(|(_, p)| p.valid && p.y == 'q' && p.tid.len() == 8);
+            let nodes: Vec<([u8; 20], SocketAddr)> = (0..8).map(|j| (named_id(120 + j), named_addr(120 + j))).collect();
+            let vals = [named_addr(160), named_addr(161)];
+            let fid = [0x7eu8; 20];
+            return match m {
+                16 | 17 | 18 => {
+                    let (d, p) = last_q?;
+                    let mut tid = p.tid.clone();
+                    if m == 16 {
+                        tid.push(0x00);
+                    } else if m == 17 {
+                        tid.extend_from_slice(&[1, 2, 3, 4, 5, 6, 7, 8, 9, 10, 11, 12]);
+                    } else {
+                        tid.truncate(7);
+                    }
+                    // from the very node that was asked (m even) -- the id still does not derive from a request
+                    Some((d.dst, n, krpc::response(&tid, &fid, Some(b"forged"), Some(&vals), &nodes)))
+                }
+                19 => {
+                    let (_, p) = last_q?;
+                    let mut tid = p.tid.clone();
+                    tid.push(0x2a);
+                    Some((fresh_addr(140), n, krpc::response(&tid, &fid, Some(b"forged"), Some(&vals), &nodes)))
+                }
+                _ => Some((grabber_addr(), n, krpc::get_peers(b"grab", &[0x6b; 20], &crate::props::single::hash_n(1), None))),
+            };
+        }
         let k = log.len() % 150;
         let fresh = fresh_addr(k);
         let mut fid = [0x7fu8; 20];
@@ -239,10 +282,12 @@ fn diff(base: &[String], got: &[String]) -> Option<String> {
     None
 }
 
-const MENU_NAMES: [&str; 16] = [
+const MENU_NAMES: [&str; 21] = [
     "ping from a fresh (id,address)", "find_node from a fresh (id,address)", "get_peers from a fresh (id,address)", "announce_peer from a fresh (id,address)",
     "response tid 2 bytes (fresh address)", "response tid 7 bytes (fresh address)", "response tid 9 bytes (fresh address)", "response tid 20 bytes (fresh address)", "response tid 8 bytes, action prefix 2^16 never used (fresh address)", "response tid 8 bytes, action prefix 2^40-1 never used (fresh address)",
     "response tid 2 bytes (from a known contact)", "response tid 7 bytes (from a known contact)", "response tid 9 bytes (from a known contact)", "response tid 20 bytes (from a known contact)", "response tid 8 bytes, action prefix 2^16 never used (from a known contact)", "response tid 8 bytes, action prefix 2^40-1 never used (from a known contact)",
+    "response: outstanding id + 1 byte, from the node that was asked", "response: outstanding id + 12 bytes, from the node that was asked", "response: outstanding id cut to 7 bytes, from the node that was asked", "response: outstanding id + 1 byte, from a fresh address",
+    "get_peers from a party that then announces with the token it is handed (queries only)",
 ];
 
 pub fn replay(v: &Value) -> i32 {
@@ -334,7 +379,7 @@ pub fn run(tier: Tier) -> Report {
             }
             let m = *prefix.last().unwrap();
             if let Some(dd) = d {
-                let class = if m <= 4 { "unsolicited-query" } else { "unattributable-response" };
+                let class = if m <= 4 || m == 21 { "unsolicited-query" } else { "unattributable-response" };
                 rep.violation(format!("injection-changes-contacts-or-results kind={class}"), format!("injecting '{}' at wire event #{}: {dd} [{:?}]", MENU_NAMES[m - 1], prefix.len() - 1, cfg), json!({"engine":"E1","check":"C12","cfg":cfg_json(cfg),"choices":prefix}));
             }
             for (s, w) in abs {
